@@ -324,11 +324,11 @@ def r6(ctx):
 
 def check(ctx):
     ctx.explanation = (
-        "Structural decision of the id derivation (_id_handler): recognised id_spec kinds, fall-through to the next key on a miss "
-        "(no break/return in miss paths), prefix slice computed from the prefix length, dominance of the multi-value rejection over "
-        "every use of an attribute's first value, counter incremented before formatting '<base>_<n>' (and the same shape in merge()), "
-        "PRIMARY KEY(id) with plain INSERTs, exact look-up raising FeatureNotFoundError. Default id_spec per format is decided with "
-        "C03.R5. Does not decide numbering 'in input order' separately (follows from C01.R2 + R4).")
+        "The id derivation is a decision table: _id_handler (with the counter routine inlined) is evaluated abstractly for every documented "
+        "form of id_spec against symbolic features and each outcome is compared with the prescribed one; the counter routine is evaluated "
+        "from given start states; merge()'s id generator is judged on the provenance of the id it assigns; PRIMARY KEY(id) with plain "
+        "INSERTs is parsed; db[key] is evaluated for a string and a Feature key on the absent-row and present-row paths. Default id_spec per "
+        "format is decided with C03.R5. Does not decide numbering 'in input order' separately (follows from C01.R2 + R4).")
     r1_r2_r3(ctx)
     r4(ctx)
     r5(ctx)
